@@ -173,8 +173,8 @@ def run(ck):
         if err is not None:
             dist["mapper_errors"] += 1
         real_budget = 2
-        if len(caps) > 15:
-            caps = rng.sample(caps, 15)       # at most 15 templates of one spec: the amount of work does not hinge on one spec
+        if ck.quick() and len(caps) > 15:
+            caps = rng.sample(caps, 15)       # quick tier: at most 15 templates of one spec, so that the amount of work does not hinge on one spec
         for ent in caps:
             templates_done += 1
             dist["templates"] += 1
